@@ -32,7 +32,7 @@ def parseTRefAux : Nat → List Char → Option TRef
 
 def parseTRef (s : String) : Option TRef := parseTRefAux (s.length + 1) s.toList
 
-def TRef.str : TRef → String
+def ApiFu.C13.TRef.str : TRef → String
   | .named n => n
   | .list t => "[" ++ t.str ++ "]"
   | .nonNull t => t.str ++ "!"
